@@ -18,7 +18,7 @@ from vf.seq import outcome
 PROP = "C13"
 LEVEL = "exploration"
 RULE = ("seeded cases of two kinds. 'roundtrip': 40 records drawn alternately from 2 JSON, 3 CSV and 2 TSV record "
-        "classes plus JSON/CSV/TSV record classes that extend another record class (base classes used first); JSON values nested to depth 3 from str (all planes, lone surrogates, control chars, quotes, "
+        "classes plus JSON/CSV/TSV record classes that extend another record class (base classes used first), slots=True record classes and a record class with a used cached_property; JSON values nested to depth 3 from str (all planes, lone surrogates, control chars, quotes, "
         "backslashes), ints (incl. >2**64), finite floats, bools, None, lists, str-keyed dicts; CSV/TSV fields int, "
         "float, str without '\\n'/'\\r' but with delimiters, quotes, backslashes, blanks, empty, NUL, non-ASCII. "
         "'file': 0-8 records of one class written one per line, read through RecordFile / MemoryMappedRecordFile "
@@ -118,8 +118,31 @@ def classes():
         class TX(TB):
             note: str
             score: float
+        # record classes whose instances have no (or a richer) __dict__
+        @dataclass(slots=True)
+        class JS(JsonRecord):
+            a: int
+            b: str
+            c: Any = None
+
+        @dataclass(slots=True)
+        class TS(TSVRecord):
+            s: str
+            n: int
+
+        import functools
+
+        @dataclass
+        class CP(CSVRecord):
+            n: int
+            s: str
+
+            @functools.cached_property
+            def weight(self):
+                return len(self.s) * 2 + 1
         for b in (JB(1, "b"), CB(1, "b"), TB(1, "b")):
             type(b).load(b.save())
+        _CLS.update(JS=JS, TS=TS, CP=CP)
         _CLS.update(J1=J1, J2=J2, C1=C1, C2=C2, C3=C3, T1=T1, T2=T2, JB=JB, JX=JX, CB=CB, CX=CX, TB=TB, TX=TX)
     return _CLS
 
@@ -204,6 +227,12 @@ def gen_record(rng, cname, file_safe=False):
                         gen_str(rng, False, file_safe)]]
     if cname == "T1":
         return [cname, [gen_str(rng, False, file_safe), gen_num(rng, "float")]]
+    if cname == "JS":
+        return [cname, [gen_num(rng, "int"), gen_str(rng, True, file_safe), gen_json(rng, 1, file_safe)]]
+    if cname == "TS":
+        return [cname, [gen_str(rng, False, file_safe), gen_num(rng, "int")]]
+    if cname == "CP":
+        return [cname, [gen_num(rng, "int"), gen_str(rng, False, file_safe)]]
     if cname in ("JB", "CB", "TB"):
         return [cname, [gen_num(rng, "int"), gen_str(rng, cname == "JB", file_safe)]]
     if cname == "JX":
@@ -217,7 +246,7 @@ def gen_record(rng, cname, file_safe=False):
 
 
 def gen_case(rng, tier, index):
-    names = ["J1", "J2", "C1", "C2", "C3", "T1", "T2", "JX", "CX", "TX", "JB", "CB", "TB"]
+    names = ["J1", "J2", "C1", "C2", "C3", "T1", "T2", "JX", "CX", "TX", "JB", "CB", "TB", "JS", "TS", "CP"]
     if index == 0:
         # dedicated input of the known finding json-adjacent-surrogates-merge
         return {"kind": "roundtrip", "ops": [["J1", ["\ud800\udfff", None]]]}
@@ -248,7 +277,10 @@ def describe(case):
 
 
 def mk(spec):
-    return classes()[spec[0]](*spec[1])
+    r = classes()[spec[0]](*spec[1])
+    if spec[0] == "CP":
+        _ = r.weight          # a cached property that was already used lives in the instance __dict__, it is no field
+    return r
 
 
 def strip_terminator(s):
